@@ -358,7 +358,9 @@ func (s *Sched) pick(en []*parked) *parked {
 	case PolStarve:
 		var rest []*parked
 		for _, p := range en {
-			if !strings.Contains(p.t.root, s.cfg.StarveRole) {
+			// the starved role is matched against the callee a background task was started with, or against
+			// the name of a client task
+			if !strings.Contains(p.t.root, s.cfg.StarveRole) && !(p.t.client && strings.HasPrefix(p.t.name, s.cfg.StarveRole)) {
 				rest = append(rest, p)
 			}
 		}
